@@ -123,14 +123,21 @@ func GenSProgram(t *rapid.T, cfg SGenCfg) SProgram {
 				}
 			}
 			if rapid.IntRange(0, 3).Draw(t, "promote") > 0 {
-				o := SOp{K: "promote", Node: n}
+				o := SOp{K: "promote", Node: n, N: int64(rapid.IntRange(0, 2).Draw(t, "windowwrites")), Seed: rapid.IntRange(1, 5000).Draw(t, "wseed"), Reps: rapid.IntRange(0, 1).Draw(t, "waligned")}
+				if cfg.W["write"] == 0 {
+					o.N = 0
+				}
 				if cfg.RestFail && rapid.IntRange(0, 4).Draw(t, "cpfail") == 0 {
 					o.Fail = []int{rapid.IntRange(0, nodes-1).Draw(t, "cpfailnode")}
 				}
 				p.Ops = append(p.Ops, o)
 			}
 		case "promote":
-			p.Ops = append(p.Ops, SOp{K: "promote", Node: rapid.IntRange(0, nodes-1).Draw(t, "node")})
+			o := SOp{K: "promote", Node: rapid.IntRange(0, nodes-1).Draw(t, "node"), N: int64(rapid.IntRange(0, 2).Draw(t, "windowwrites")), Seed: rapid.IntRange(1, 5000).Draw(t, "wseed"), Reps: rapid.IntRange(0, 1).Draw(t, "waligned")}
+			if cfg.W["write"] == 0 {
+				o.N = 0
+			}
+			p.Ops = append(p.Ops, o)
 		case "remove":
 			o := SOp{K: "remove", Node: rapid.IntRange(0, nodes-1).Draw(t, "node")}
 			if cfg.AllowDup && rapid.IntRange(0, 4).Draw(t, "unk") == 0 {
@@ -165,7 +172,7 @@ func GenSProgram(t *rapid.T, cfg SGenCfg) SProgram {
 			}
 			p.Ops = append(p.Ops, rc, SOp{K: "add", Node: n},
 				SOp{K: "rebuild", N: int64(rapid.IntRange(0, 3).Draw(t, "wpp")), Seed: rapid.IntRange(1, 5000).Draw(t, "seed"),
-					Str: rapid.SampledFrom([]string{"", "", "", "", "skipfile", "verifyfail", "nocopy", "nocopy"}).Draw(t, "interrupt"), On: rapid.Bool().Draw(t, "punch"),
+					Str: rapid.SampledFrom([]string{"", "", "", "", "skipfile", "verifyfail", "verifyfail", "nocopy", "nocopy"}).Draw(t, "interrupt"), On: rapid.Bool().Draw(t, "punch"),
 					Reps: rapid.IntRange(0, 1).Draw(t, "aligned")})
 		case "sysrebuild":
 			n := rapid.IntRange(0, nodes-1).Draw(t, "node")
@@ -205,6 +212,12 @@ func GenSProgram(t *rapid.T, cfg SGenCfg) SProgram {
 		case "promotecp":
 			nf := rapid.IntRange(1, nodes).Draw(t, "ncpfail")
 			p.Ops = append(p.Ops, SOp{K: "promote", Node: rapid.IntRange(0, nodes-1).Draw(t, "node"), Fail: rapid.Permutation(seqInts(nodes)).Draw(t, "cpfailperm")[:nf]})
+		case "addrace":
+			a := rapid.IntRange(0, nodes-1).Draw(t, "nodea")
+			b := rapid.IntRange(0, nodes-1).Draw(t, "nodeb")
+			// both candidates leave (if attached) and come back closed, then ask to be added at the same time
+			p.Ops = append(p.Ops, SOp{K: "remove", Node: a}, SOp{K: "remove", Node: b}, SOp{K: "reconnect", Node: a}, SOp{K: "reconnect", Node: b},
+				SOp{K: "addrace", Node: a, N: int64(b)})
 		case "errio":
 			off := rapid.Int64Range(0, total-1).Draw(t, "off")
 			l := rapid.Int64Range(1, min64(total-off, 24)).Draw(t, "len")
